@@ -1,9 +1,9 @@
 (** C19 -- glue for the correspondence files (executable only): tables for name_fn / fn / pickle
     sizes, a multi-stage scenario runner (crash run, rerun, second rerun, ...) and the comparison
     with what the implementation was observed to do.  Values are ids in Z. *)
-From Coq Require Import List NArith ZArith Bool Arith Lia.
+From Coq Require Import List NArith ZArith Bool Arith Lia Ascii String.
 From MxlBase Require Import ListX.
-From CacheFS Require Import CacheFS.
+From CacheFS Require Import CacheKeys CacheFS.
 Import ListNotations.
 
 Definition tblNN (t : list (N * N)) (k : N) : N :=
@@ -54,11 +54,14 @@ Section Run.
   Let fnv := tblNZ fns.
   Let size := tblZn sizes.
 
-  Definition run_stage (f : fs Z) (p : N) (r : run_spec) : sys Z :=
+  (* [buffered]: the file objects of this run keep written bytes in user space until close()
+     (the driver's "buffered" scenario option); otherwise they are unbuffered *)
+  Definition run_stage (f : fs Z) (p : N) (r : run_spec) (buffered : bool) : sys Z :=
+    let pol := if buffered then @pol_buffered Z else @pol_through Z in
     match r with
-    | RSeq b => run_seq Z name fnv size b pr p items f
-    | RPar => run_par Z name fnv size pr p items f
-    | RParExit c e => run_par_exit Z name fnv size pr p items f c e
+    | RSeq b => run_seq Z name fnv size pol b pr p items f
+    | RPar => run_par Z name fnv size pol pr p items f
+    | RParExit c e => run_par_exit Z name fnv size pol pr p items f c e
     end.
 
   Fixpoint tmps_match (f : fs Z) (p : N) (obs : list (list oc)) : bool :=
@@ -74,18 +77,30 @@ Section Run.
     && list_eqb oc_eqb (map fst (observe Z name 1 items (s_fs st))) (o_final o)
     && tmps_match (s_fs st) 1 (o_tmps o).
 
-  Fixpoint run_stages (f : fs Z) (p : N) (stages : list (run_spec * stage_obs)) : bool :=
+  Fixpoint run_stages (f : fs Z) (p : N) (stages : list (run_spec * bool * stage_obs)) : bool :=
     match stages with
     | [] => true
-    | (r, o) :: rest =>
-        let st := run_stage f p r in
+    | (r, buffered, o) :: rest =>
+        let st := run_stage f p r buffered in
         stage_matches st o && run_stages (s_fs st) (N.succ p) rest
     end.
 End Run.
 
 (** one correspondence case: tables, items, stages (starting from an empty directory, process ids 1,2,..) *)
-Definition case := (list (N * N) * list (N * Z) * list (Z * nat) * list (N * N) * list (run_spec * stage_obs))%type.
+Definition case := (list (N * N) * list (N * Z) * list (Z * nat) * list (N * N) * list (run_spec * bool * stage_obs))%type.
 Definition case_ok (pr : save_protocol) (c : case) : bool :=
   match c with
   | (names, fns, sizes, items, stages) => run_stages pr names fns sizes items fs_empty 1 stages
   end.
+
+(** correspondence of the default name function: a key of the universe and the file name the
+    implementation was observed to use for it *)
+Definition name_case := (key * string)%type.
+Definition name_case_ok (kind : name_kind) (c : name_case) : bool :=
+  wf_key (fst c) &&
+  match name_of kind no_strhash 0 (fst c) with
+  | Some l => String.eqb (string_of_list_ascii l) (snd c)
+  | None => false
+  end.
+Definition K_str (s : string) : key := KStr (chars s).
+Definition K_float (s : string) : key := KFloat (chars s).
